@@ -325,7 +325,9 @@ func Collect[T any](ctx context.Context, s Stream[T]) ([]T, error) {
 // all of them.
 func Last[T any](ctx context.Context, s Stream[T], n int) ([]T, error) {
 	defer s.Close()
-	buf := make([]T, n)
+	// A ring of the last n items that grows with the input: n may be far larger than what s yields
+	// ("all of them"), so it is not allocated up front.
+	buf := make([]T, 0)
 	i := 0
 	for {
 		item, err := s.Next(ctx)
@@ -334,7 +336,9 @@ func Last[T any](ctx context.Context, s Stream[T], n int) ([]T, error) {
 		} else if err != nil {
 			return nil, err
 		}
-		if n > 0 {
+		if len(buf) < n {
+			buf = append(buf, item)
+		} else if n > 0 {
 			buf[i%n] = item
 		}
 		i++
@@ -344,7 +348,7 @@ func Last[T any](ctx context.Context, s Stream[T], n int) ([]T, error) {
 		return buf, nil
 	}
 	if i < n {
-		return buf[:i], nil
+		return buf, nil
 	}
 	out := make([]T, n)
 	idx := i % n
